@@ -119,6 +119,17 @@ open JanetModel.Gen.Sandbox in
 theorem gen_certOK : certOK need graph cert = true := by decide +kernel
 
 open JanetModel.Gen.Sandbox in
+/-- every node of the regenerated graph that reads or writes the tracked word touches exactly ONE variable's bit field
+    (`Sound.upd_semantics`, `or_semantics`, `test_semantics`: such nodes are assignments to / tests of that variable and leave
+    the other tracked variables alone) -/
+theorem gen_fieldsOK : fieldsOK graph = true := by decide +kernel
+
+/-- ★ what `gen_fieldsOK` buys, restated: an accepted `modeUpd` is an assignment to one tracked variable -/
+theorem upd_semantics (k o : Nat) (h : opFieldsOK (.modeUpd k o) = true) (md : Nat) :
+    ∃ f ∈ fields, ((md &&& k) ||| o) &&& f = o ∧ ∀ g ∈ fields, g ≠ f → ((md &&& k) ||| o) &&& g = md &&& g :=
+  Sound.upd_semantics k o h md
+
+open JanetModel.Gen.Sandbox in
 theorem gen_classified : classifiedAll externals externalsIdx = true := by decide +kernel
 
 open JanetModel.Gen.Sandbox in
